@@ -4,7 +4,7 @@
 N=${1:-6}
 V=$(cd "$(dirname "$0")/.." && pwd)
 cd $V
-ls -d seeded/*/ | awk -v n=$N '{print > ("/tmp/seedshard." (NR%n))}'
+ls -d ${SEEDS:-seeded/*/} | awk -v n=$N '{print > ("/tmp/seedshard." (NR%n))}'
 for k in $(seq 0 $((N-1))); do
   rm -rf /tmp/vshard$k; cp -a $V /tmp/vshard$k
   ( SEEDS="$(tr '\n' ' ' < /tmp/seedshard.$k)" /tmp/vshard$k/tools/run_all_seeds.sh /tmp/seedrun$k > /tmp/seedshard.$k.out 2>&1
